@@ -82,7 +82,7 @@ def _chk_bed(args, res, old):
             old["show"], old["ploidy"], old["female"], old["build"], got[:6], want[:6])
 
 
-contract("cnvlib/export.py::export_bed", params=dict(segments=ObjT("CopyNumArray")), bounded=True, gen=_gen_bed,
+contract("cnvlib/export.py::export_bed#rt", params=dict(segments=ObjT("CopyNumArray")), bounded=True, gen=_gen_bed,
          call=lambda fn, a: fn(a["segments"], a["ploidy"], a["male_ref"], a["build"], a["female"], a["label"], a["show"]),
          props=("C20",), checks=[("rows_selected_and_copied", _chk_bed)])
 
@@ -303,3 +303,39 @@ def _chk_nexus(args, res, old):
 
 contract("cnvlib/export.py::export_nexus_basic", params=dict(cnarr=ObjT("CopyNumArray")), bounded=True, gen=_gen_nexus,
          props=("C20",), checks=[("one_row_per_bin_with_label", _chk_nexus)])
+
+
+# ----------------------------------------------------------------------------- deductive: export_bed
+from .c_call import CNA_COLS, CHROM, GENE, BUILD, _RP_K, _X_K     # noqa: E402
+
+_SEG = ObjT("CopyNumArray", data=TabT(opt=("cn",), index="range", chromosome=CHROM, start=Int, end=Int, gene=GENE, log2=Real,
+                                      cn=Int), meta=DictT())
+_XS_K = _X_K.replace("cnarr", "segments")
+_NCOP = "ite('cn' in segments.data, segments.data.cn[k], rnd(%s * exp2(segments.data.log2[k])))" % _RP_K.replace("cnarr", "segments")
+_SHOWN = "ite(show == 'all', True, ite(show == 'ploidy', (NC) != ploidy, (NC) != XS))".replace("NC", _NCOP).replace("XS", _XS_K)
+
+contract(
+    "cnvlib/export.py::export_bed",
+    params=dict(segments=_SEG, ploidy=Int, is_haploid_x_reference=Bool, diploid_parx_genome=BUILD, is_sample_female=Bool,
+                label=Lit(None), show=Lit("all", "ploidy", "variant")),
+    returns=TabT(index="masked", chromosome=CHROM, start=Int, end=Int, label=GENE, ncopies=Int),
+    requires=["ploidy >= 1"],
+    ensures=[
+        # result.index holds the positions of the selected segments (labels of the masked frame)
+        ("rows_are_selected_segments", ("forall(0, len(result), lambda j: let(lambda k: "
+         "0 <= k and k < len(segments.data) and (SHOWN) and "
+         "result.chromosome[j] == segments.data.chromosome[k] and result.start[j] == segments.data.start[k] and "
+         "result.end[j] == segments.data.end[k] and result.label[j] == segments.data.gene[k] and result.ncopies[j] == (NC), "
+         "result.index[j]))").replace("SHOWN", _SHOWN).replace("NC", _NCOP)),
+        ("in_order", "forall(0, len(result), lambda a: forall(0, len(result), lambda b: "
+                     "implies(a < b, result.index[a] < result.index[b])))"),
+        ("every_selected_segment_listed", ("forall(0, len(segments.data), lambda k: implies(SHOWN, "
+         "exists(0, len(result), lambda j: result.index[j] == k)))").replace("SHOWN", _SHOWN)),
+    ],
+    ghost=dict(frame_exempt_keys=("chr_x", "chr_y")),
+    props=("C20",),
+    domain="skip",
+    canaries=[("ploidy_ne_to_gt", 'out["ncopies"] != ploidy', 'out["ncopies"] > ploidy'),
+              ("variant_uses_ploidy", 'out = out[out["ncopies"] != exp_copies]', 'out = out[out["ncopies"] != ploidy]'),
+              ("round_to_trunc", ".round()", "")],
+)
